@@ -89,7 +89,62 @@ KINDS = {
 }
 
 
+HIST_N = [0]
+
+
+def hist(h):
+    """a library operation that must not influence later id computations: new_version / revoke on an SCO object or
+    dict of the class (with created/modified/revoked as custom properties, as versioning requires), re-parsing,
+    deepcopy, registration of another custom observable"""
+    import copy
+    import stix2.versioning
+    base = h["case"]
+    ty = base["type"]
+    op = h["op"]
+    try:
+        if op == "register":
+            HIST_N[0] += 1
+
+            @stix2.v21.CustomObservable("x-verif-hist-%d-%d" % (h.get("n", 0), HIST_N[0]),
+                                        [("val_a", P.StringProperty()), ("val_b", P.IntegerProperty())], ["val_a"])
+            class _H(object):
+                pass
+            _H(val_a="x", val_b=1)
+            return {"hist": "ok"}
+        kwargs = dict((dec_str(k), dec(v)) for k, v in base["props"])
+        kwargs.update(created="2020-01-01T00:00:00Z", modified="2020-01-01T00:00:00Z", revoked=False)
+        cls = stix2.registry.class_for_type(ty, "2.1", "observables")
+        obj = cls(allow_custom=True, **kwargs)
+        if op == "new_version_obj":
+            stix2.versioning.new_version(obj, defanged=not kwargs.get("defanged", False))
+        elif op == "new_version_dict":
+            stix2.versioning.new_version(json.loads(obj.serialize()), x_verif_note="seen again")
+        elif op == "revoke_obj":
+            stix2.versioning.revoke(obj)
+        elif op == "revoke_dict":
+            stix2.versioning.revoke(json.loads(obj.serialize()))
+        elif op == "reparse":
+            stix2.parse(json.loads(obj.serialize()), allow_custom=True, version="2.1")
+        elif op == "deepcopy":
+            copy.deepcopy(obj)
+        else:
+            return {"hist": "unknown-op"}
+        return {"hist": "ok"}
+    except Exception as e:  # noqa: BLE001
+        return {"hist": "exc:" + type(e).__name__}
+
+
+def contrib_tables():
+    reg = stix2.registry.STIX2_OBJ_MAPS["2.1"]["observables"]
+    return {"tables": {ty: list(getattr(cls, "_id_contributing_properties", ["<missing>"])) for ty, cls in reg.items()
+                       if not ty.startswith("x-verif-")}}
+
+
 def call(case):
+    if "hist" in case:
+        return hist(case["hist"])
+    if case.get("probe") == "contrib_tables":
+        return contrib_tables()
     if case.get("probe") == "year999":
         return {"text": stix2.utils.format_datetime(dt.datetime(999, 1, 2, 3, 4, 5))}
     ty = case["type"]
